@@ -1393,7 +1393,24 @@ impl Peers {
         state: ProveState,
     ) -> Result<(), Status> {
         if let Some(mut peer) = self.inner.get_mut(&index) {
-            let has_reorg = !state.reorg_last_headers.is_empty();
+            // A fork which is shorter than the remembered headers is proved without reorg headers:
+            // the block which was proved before is replaced in the new last headers.
+            let has_reorg = !state.reorg_last_headers.is_empty()
+                || peer
+                    .state
+                    .get_prove_state()
+                    .map(|prev_state| {
+                        let prev_header = prev_state.get_last_header().header();
+                        state
+                            .get_last_headers()
+                            .iter()
+                            .chain(Some(state.get_last_header().header()))
+                            .any(|header| {
+                                header.number() == prev_header.number()
+                                    && header.hash() != prev_header.hash()
+                            })
+                    })
+                    .unwrap_or(false);
             peer.state = peer.state.take().receive_last_state_proof(state)?;
             if has_reorg {
                 peer.latest_block_filter_hashes.clear();
